@@ -13,7 +13,8 @@ RULE = ("records = valid diff/interp/min/max/cumsum calls, and derivative/cumint
         "position, position the axis lacks, unknown boundary or position word, non-numeric fill value), transform "
         "requests (periodic axis, non-monotonic conservative bins, conservative without outer), grid-ufunc calls with "
         "inputs on wrong positions or wrong arity (C11's generator); the TLA+ specification classifies every record "
-        "itself; non-trivial = distinct (class, op, layout) combinations")
+        "itself; non-trivial = distinct (class, op, layout) combinations"
+        ' Also: metric-weighted operators, sequences of numbers as fill value, the empty position word, bypass_checks / DataArray targets / unsigned bins in transform requests.')
 
 EDITS = ["axis-missing", "no-dim", "two-dims", "same-position", "absent-position", "face-to-face", "boundary-word", "position-word", "fill-nonnumeric"]
 
